@@ -168,11 +168,100 @@ func suiteTwoWorkers() hlib.Suite {
 	}}
 }
 
+const overlapYAML = `scenario: s
+limits:
+  max-duration: 5s
+  concurrency: 1
+  max-iterations: 0
+  ignore-dropped: true
+stages:
+- duration: 150ms
+  mode: constant
+  rate: 1/100ms
+  jitter: 0
+  distribution: none
+- duration: 150ms
+  mode: constant
+  rate: 1/100ms
+  jitter: 0
+  distribution: none
+`
+
+// suiteOverlap: config-file stages; the first iteration outlives its stage, so
+// it is still running while the next stage's worker runs its iterations. Each
+// must be reported by its own outcome.
+func suiteOverlap() hlib.Suite {
+	return hlib.Suite{Name: "config-file-stages/iteration-outlives-its-stage", Run: func(r *hlib.Rec) {
+		for _, first := range []string{"pass", "fail-early", "fail-late"} {
+			for b := range behaviours {
+				if !r.Mine() || r.Expired() {
+					continue
+				}
+				r.Eval()
+				input := fmt.Sprintf("iteration 1 (%s) runs 300ms and outlives stage 1; iteration 2 of stage 2 does %s", first, behaviours[b].name)
+				wantFail, wantPass := uint64(0), uint64(0)
+				inv := 0
+				rs := &hlib.RunSpec{Mode: "file", FileYAML: overlapYAML, Quiet: true, CompletionTimeout: 2 * time.Second}
+				rs.ScenarioFn = func(t *f1testing.T) f1testing.RunFn {
+					return func(t *f1testing.T) {
+						inv++
+						id, _ := strconv.Atoi(t.Iteration)
+						switch {
+						case id == 1:
+							if first == "fail-early" {
+								t.Fail()
+							}
+							vtime.Sleep(300 * time.Millisecond)
+							if first == "fail-late" {
+								t.Fail()
+							}
+							if first == "pass" {
+								wantPass++
+							} else {
+								wantFail++
+							}
+						case id == 2:
+							if behaviours[b].fail {
+								wantFail++
+							} else {
+								wantPass++
+							}
+							behaviours[b].do(t)
+						default:
+							wantPass++
+						}
+					}
+				}
+				res := hlib.RunOnce(rs, -1, 0, 60*time.Second)
+				if res.BuildErr != nil {
+					panic(res.BuildErr)
+				}
+				if res.Out.Status != vrt.StOK {
+					r.Fail("C07/escapes", "stages:"+behaviours[b].name, res.Out.Status.String()+": "+firstLine(res.Out.Crash)+res.Out.Detail, input)
+					continue
+				}
+				if inv < 3 {
+					r.Fail("C07/harness", "no-overlap", fmt.Sprintf("only %d iterations ran: the scenario does not overlap stages", inv), input)
+				}
+				if res.Fail != wantFail || res.Success != wantPass {
+					kind := "failure-reported-as-success"
+					if res.Fail > wantFail {
+						kind = "success-reported-as-failure"
+					}
+					r.Fail("C07/classification", kind+"/across-stages", fmt.Sprintf("result reports %d successful and %d failed, the iterations' own outcomes are %d and %d", res.Success, res.Fail, wantPass, wantFail), input)
+				}
+				r.Distinct(first + "/" + behaviours[b].name)
+			}
+		}
+		r.Sample("stage 1's iteration still running while stage 2's worker runs: {pass, fails early, fails late} x 17 behaviours")
+	}}
+}
+
 func suites(tier string) []hlib.Suite {
 	if tier == "quick" {
-		return []hlib.Suite{suiteOneWorker(2), suiteTwoWorkers()}
+		return []hlib.Suite{suiteOneWorker(2), suiteTwoWorkers(), suiteOverlap()}
 	}
-	return []hlib.Suite{suiteOneWorker(3), suiteTwoWorkers()}
+	return []hlib.Suite{suiteOneWorker(3), suiteTwoWorkers(), suiteOverlap()}
 }
 
 func main() { hlib.EnumMain("C07", suites) }
